@@ -89,11 +89,15 @@ func (h *hist) hook(loc string) {
 		runtime.Goexit()
 	}
 	if m.gateLoc == loc {
+		my := m.armSeq
 		m.held = loc
+		m.heldSeq = my
 		m.heldCnt[loc]++
 		m.ev("held@"+loc, -1)
 		m.bcast()
-		for m.gateLoc == loc && !m.stop {
+		// a hold ends with its release even if the writer re-arms before this goroutine is scheduled again:
+		// a stale hold would otherwise be taken for an arrival at the NEW arming point (see notes/C15.md, false alarms)
+		for m.gateLoc == loc && m.armSeq == my && !m.stop {
 			ch := m.ch
 			m.mu.Unlock()
 			<-ch
@@ -129,11 +133,13 @@ func (h *hist) consumerCheckpoint() bool {
 		return false
 	}
 	if m.busyAt >= 0 && m.delivered >= m.busyAt {
+		my := m.armSeq
 		m.held = "consumer"
+		m.heldSeq = my
 		m.heldCnt["consumer"]++
 		m.ev("busy", -1)
 		m.bcast()
-		for m.busyAt >= 0 && !m.stop {
+		for m.busyAt >= 0 && m.armSeq == my && !m.stop {
 			ch := m.ch
 			m.mu.Unlock()
 			<-ch
@@ -370,13 +376,14 @@ func (h *hist) release() {
 
 // arrive waits until the reader (or consumer) is held at loc.
 func (h *hist) arrive(loc string) int {
-	return h.wait(waitSpec{what: "reader held at " + loc, pred: func() bool { return h.m.held == loc }})
+	return h.wait(waitSpec{what: "reader held at " + loc, pred: func() bool { return h.m.held == loc && h.m.heldSeq == h.m.armSeq }})
 }
 
 func (h *hist) armBusy(poke int) {
 	m := h.m
 	m.mu.Lock()
 	m.busyAt = h.appended + int64(poke)
+	m.armSeq++
 	m.bcast()
 	m.mu.Unlock()
 }
@@ -385,6 +392,7 @@ func (h *hist) armGate(loc string) {
 	m := h.m
 	m.mu.Lock()
 	m.gateLoc = loc
+	m.armSeq++
 	m.bcast()
 	m.mu.Unlock()
 }
